@@ -712,6 +712,14 @@ def roundtrip_case(kind, vals, acc, detail=None):
     try:
         obj = kind.build(vals)
         bits = obj.as_bits()
+        # the caller owns the returned bitarray: writing into it must not change what the object serialises to next time
+        _scratch = obj.as_bits()
+        if _scratch is bits or len(_scratch) != len(bits):
+            pass
+        _scratch.invert()
+        if obj.as_bits() != bits:
+            acc.violation(f"{kind.name}:as_bits_result_aliases_object_state", case,
+                          "as_bits() hands out an object whose modification changes later serialisations")
     except Exception as e:  # in-range field values must serialise
         acc.violation(f"{kind.name}:exception_on_encode:" + exc_sig(e), case, repr(e))
         return "exception"
